@@ -15,6 +15,7 @@ import (
 )
 
 type OblInst struct {
+	Focus   []string // optional reduced hypothesis set (entry facts + cut assertions); tried first, any proof from it is sound
 	HypList []string
 	Hyp   string
 	Goal  string
@@ -107,6 +108,8 @@ type Unit struct {
 	panicSites []string
 	usesErrIs bool
 	functional bool
+	havocLog map[string]havocEnt
+	nextFocus []string
 }
 
 // nonFunctional records a violation of the `functional` flag on the current path.
@@ -143,7 +146,12 @@ func (u *Unit) oblige(st *State, name, kind, text, goal string, quant bool) {
 		}
 		return
 	}
-	o.Insts = append(o.Insts, &OblInst{Hyp: st.hyp(), HypList: append(append([]string{}, st.pc...), st.guard...), Goal: goal, Trace: append([]string(nil), st.trace...)})
+	in := &OblInst{Hyp: st.hyp(), HypList: append(append([]string{}, st.pc...), st.guard...), Goal: goal, Trace: append([]string(nil), st.trace...)}
+	if u.nextFocus != nil {
+		in.Focus = u.nextFocus
+		u.nextFocus = nil
+	}
+	o.Insts = append(o.Insts, in)
 }
 
 func (u *Unit) cover(st *State, name, text string) {
